@@ -109,13 +109,15 @@ fn post_fault_oracle(w: &mut W, op: Op, kind: Cb, pre: &BTreeMap<u32, u32>, pre_
     let allowed: Option<BTreeSet<u32>> = match kind {
         // a panicking Hash may drop elements being relocated: whole-table rehashes (shrink_to) may lose
         // any number; clone()/clone_from()/from_iter() hash into another table and must leave the source
-        // alone; every other call relocates one element at a time, so at most the one in flight is lost
+        // alone; any other call relocates at most R elements
         Cb::Hash => match op.k {
-            OpK::ShrinkTo | OpK::ShrinkToFit => None,
+            // whole-table work: shrink_to rehashes, reserve / extend mid-resize relocate all leftovers
+            OpK::ShrinkTo | OpK::ShrinkToFit | OpK::Reserve | OpK::TryReserve | OpK::ExtendFresh | OpK::ExtendOverlap | OpK::ExtendRef | OpK::ExtendHint => None,
             OpK::CloneReplace | OpK::CloneFromInto | OpK::FromIter => Some(BTreeSet::new()),
             _ => {
+                // a single key-adding call relocates at most R elements
                 let mut s: BTreeSet<u32> = log.iter().filter(|e| e.1).map(|e| e.0).collect();
-                if lost.len() <= 1 + s.len() {
+                if lost.len() <= griddle::verif::R + s.len() {
                     s.extend(lost.iter().copied());
                 }
                 Some(s)
